@@ -53,6 +53,62 @@ def joint_impossible_combo(case, v=None):
     return False
 
 
+def joint_impossible_rcc_partial_chunk(case, v=None):
+    """joint_impossible_combo on a block that requires a complete crossing (so no sequence is valid), where some
+    crossing never gets a full chunk (trial count after the preamble below crossing size x crossing weight, i.e. a
+    MinimumTrials that is not a multiple of the crossing size): only the 'at most' half of the crossing is encoded
+    for a partial chunk, so the missing combination is never asked for."""
+    fl = _flat(case)
+    if fl is None or not fl.crossings or not fl.rcc or not fl.empty or fl.T is None:
+        return False
+    if not joint_impossible_combo(case, v):
+        return False
+    return any(fl.T - cr["q"] * cr["sustain"] < cr["S"] * cr["cw"] * cr["sustain"] for cr in fl.crossings)
+
+
+def post_preamble_uncrossed_late_start(case, v=None):
+    """some (sub-)block is aligned POST_PREAMBLE and its design lists a complex-window derived factor that is in no
+    crossing and starts later than every crossed one: the library takes that start as the common preamble of all
+    crossings but does not add it to the trial count"""
+    sp = _spec(case)
+    for t in S.walk_blocks(sp["block"]):
+        try:
+            fl = ref._node(sp, t)
+        except Exception:
+            continue
+        if fl is None or fl.ctor_err or not fl.crossings or fl.align != "post":
+            continue
+        p_crossed = max(c["p"] for c in fl.crossings)
+        p_design = max([S.fstart(sp, n) for n in fl.design if S.is_complex(sp, n)] + [0])
+        if p_design > p_crossed:
+            return True
+    return False
+
+
+def sustained_complex_over_unsustained_source(case, v=None):
+    """a Nest holds a complex-window derived factor constant over the inner run (it is crossed in the outer block)
+    while one of the basic factors it is computed from is not held constant (not crossed in the outer block)"""
+    sp = _spec(case)
+    for t in S.walk_blocks(sp["block"]):
+        if t["op"] != "nest":
+            continue
+        try:
+            fl = ref._node(sp, t)
+        except Exception:
+            continue
+        if fl is None or fl.ctor_err or not fl.crossings:
+            continue
+        sus = {}
+        for cr in fl.crossings:
+            for n in cr["names"]:
+                sus[n] = max(sus.get(n, 1), cr["sustain"])
+        for n, k in sus.items():
+            if k > 1 and sp["factors"][n]["kind"] == "derived" and S.is_complex(sp, n):
+                if any(sus.get(r, 1) != k for r in S.basic_roots(sp, n)):
+                    return True
+    return False
+
+
 # M2 ------------------------------------------------------------------------------------------------
 def pin_on_inapplicable_trial(case, v=None):
     sp = _spec(case)
